@@ -725,6 +725,24 @@ def debug_probe(root, env):
 
 # ------------------------------------------------------------------------------------------------ assembly
 
+def cases_c17():
+    """option values that reach the macro through macro_rules! fragments (`$v:literal`, `$v:expr`: invisible groups around the
+    `true` / `false`) mean what the same values written by hand mean"""
+    out = []
+    for i, (frag_nd, frag_ex, nd, ex) in enumerate([("literal", "literal", "true", "false"), ("expr", "literal", "true", "true"),
+                                                    ("literal", "expr", "false", "false"), ("expr", "expr", "false", "true")]):
+        dep = "" if nd == "true" else "deps: &impl A, "
+        call0 = "f(%s41)" % ("" if nd == "true" else "&app, ")
+        lib = ("macro_rules! svc { ($nd:%s, $ex:%s) => { #[entrait(pub Tr, no_deps = $nd, export = $ex)] pub fn f(%sx: i64) -> i64 { x + 1 } } }\n"
+               "svc!(%s, %s);\npub mod hand { use crate::*; #[entrait(pub Tr, no_deps = %s, export = %s)] pub fn f(%sx: i64) -> i64 { x + 1 } }\n"
+               "pub struct App; impl A for Impl<App> {}\n"
+               "pub fn run() { let app = Impl::new(App); let r0 = %s; let r1 = Tr::f(&app, 41); let r2 = hand::Tr::f(&app, 41); "
+               "report({cid}, \"C17\", r0 == 42 && r1 == 42 && r2 == 42, format!(\"{} {} {}\", r0, r1, r2)); }") % (
+            frag_nd, frag_ex, dep, nd, ex, nd, ex, dep, call0)
+        out.append(SCase("C17", "fragment-values/%s-%s" % (frag_nd, frag_ex), lib=lib, run="lib"))
+    return out
+
+
 def build_cases(seed, tier):
     rng = random.Random(seed * 389 + 11)
     k = 3 if tier == "thorough" else 1
@@ -739,6 +757,7 @@ def build_cases(seed, tier):
     cases += cases_c19(rng, 16, nostd=True)
     cases += cases_c10(rng, 60 * k)
     cases += cases_c11(rng, 27 * k)
+    cases += cases_c17()
     for i, c in enumerate(cases):
         c.cid = i
         if c.prop == "C13":
